@@ -5,9 +5,11 @@ from harness.run import Result
 from harness.common import struct_hash
 
 ID = "C02"
-LEAN_MODULES = ["Pypika.Props.C02"]
+LEAN_MODULES = ["Pypika.Props.C02", "Pypika.Props.C02Bridge"]
 THEOREMS = [
     "Pypika.C02.render_sound",
+    "Pypika.C02.render_emb",            # the model's `render` on arithmetic terms is the image of renderTok
+    "Pypika.C02.render_sound_model",    # hence render_sound holds of `render`, the function run against /repo
 ]
 AGREE = ["Pypika.Agree.left_parens", "Pypika.Agree.right_parens", "Pypika.Agree.needs_brackets",
          "Pypika.Agree.arith_text", "Pypika.Agree.bool_text"]
